@@ -72,6 +72,14 @@ func (b *ParamObjectBuilder) BuildParamObject(
 			if !tagInfo.Optional {
 				return reflect.Value{}, fmt.Errorf("failed to resolve field %s: %w", field.Name, err)
 			}
+
+			// An optional field stays zero when its dependency is not registered.
+			// A dependency that is registered but fails to construct is a real
+			// failure; resolvers that can tell the two apart get it reported.
+			if classifier, ok := resolver.(NotFoundClassifier); ok && !classifier.IsNotFound(err) {
+				return reflect.Value{}, fmt.Errorf("failed to resolve optional field %s: %w", field.Name, err)
+			}
+
 			// Optional field - leave as zero value
 			continue
 		}
@@ -228,6 +236,13 @@ type ServiceRegistration struct {
 	Name  string // Field name
 	Key   string // From name tag
 	Group string // From group tag
+}
+
+// NotFoundClassifier may be implemented by a DependencyResolver to tell "the
+// service is not registered" apart from any other resolution failure. Optional
+// parameter-object fields ignore only the former.
+type NotFoundClassifier interface {
+	IsNotFound(err error) bool
 }
 
 // DependencyResolver is the interface for resolving dependencies.
